@@ -243,7 +243,9 @@ EDIT_DOC = {"a": {"0": "zero", "1": [10, {"x/y": 1, "~": 2, "~1": 3}], "01": "le
             # names a pointer *text* would read differently (backslash sequences, the key markers `~` / `#` in front of a
             # sibling's name, signed / padded / non-ASCII digits), each next to the sibling it could be taken for
             "n": {"\\u0041": [1], "A": [2], "C:\\temp\\new.txt": 3, "\\": 4, "\\/": 5, "/": 6, "~a": 7, "a": 8, "#0": 9, "0": 10, "-0": 11, "+1": 12, "1": 13, " 1": 14,
-                  "1_0": 15, "\uff11": 16, "1e0": 17, "#a": 18, "~0": 19, "~": 20, "9007199254740993": {"deep": 21}}}
+                  "1_0": 15, "\uff11": 16, "1e0": 17, "#a": 18, "~0": 19, "~": 20, "9007199254740993": {"deep": 21}},
+            # values whose comparison has corner cases: a null member, an empty object / array, nested nulls
+            "z": {"nul": None, "e": {}, "l": [], "deep": [{"email": None, "n": 0}, {"": None}]}}
 
 
 def r20_8(ctx: Ctx) -> RuleResult:
